@@ -277,11 +277,15 @@ class MembershipProtocol(Entity):
         if target_name is None or target_name not in self._members:
             return []
 
-        self._members[target_name]
+        info = self._members[target_name]
 
         # If we already got an ack, skip
         if target_name not in self._pending_acks:
             return []
+
+        # No ack within the direct-probe timeout: suspect the member so that the
+        # suspicion timeout scheduled below can declare it dead.
+        self._suspect_member(info, self.now.to_seconds())
 
         # Pick random delegates (excluding self and target)
         delegates = [
